@@ -36,6 +36,8 @@ RULE = (
     "input reached at least QUIC header parsing (depth probes: header / decrypt / payload / TLS message); distinct = "
     "(role, state, family, frame-or-message kind, outcome class {ignored, replied, events, closing, closed(code)}) tuples."
 )
+RULE += " Server state after_ch_0rtt (resumed session, early data accepted, peer holds the client's 0-RTT keys); descriptor slices come from a fixed shuffle; generator 'live': genuine peers with application traffic (resets, STOP_SENDING, key updates, ID changes) over lossy networks, oracle = no API call raises."
+
 ASSUMPTIONS = [
     "application callbacks (session ticket / token handlers) supplied by the harness do not raise",
     "datagrams_to_send on a server connection that has never been handed any datagram is outside the property (no network input yet)",
